@@ -60,7 +60,7 @@ static void cb_parser(const int *idx, void *u) { const char *s = sp_pool[idx[0]]
   SP_LAST("CompoundParser(%s)", sp_q(s)); b0 = sw_alloc();
   c1 = CompoundParser(s, &e); c2 = CompoundParser(s, NULL);
   if (dg_cd(c1) != dg_cd(c2)) sw_violation("CompoundParser", "slot-dependent-result", "", sp_w);
-  sw_contract(F_CompoundParser, e, c1 == NULL, c1 ? fin_cd(c1) : 1, 0, sp_w);
+  sw_contract(F_CompoundParser, e, c1 == NULL, c1 ? fin_cd(c1) : 1, c1 == NULL, sp_w);
   if (c1) FreeCompoundData(c1); if (c2) FreeCompoundData(c2);
   sp_leak("CompoundParser", b0, redo_parser, (void *)s); }
 
@@ -69,7 +69,7 @@ static void cb_nistn(const int *idx, void *u) { const char *s = sp_pool[idx[0]];
   SP_LAST("GetCompoundDataNISTByName(%s)", sp_q(s)); b0 = sw_alloc();
   c1 = GetCompoundDataNISTByName(s, &e); c2 = GetCompoundDataNISTByName(s, NULL);
   if (dg_nist(c1) != dg_nist(c2)) sw_violation("GetCompoundDataNISTByName", "slot-dependent-result", "", sp_w);
-  sw_contract(F_NISTByName, e, c1 == NULL, 1, 0, sp_w);
+  sw_contract(F_NISTByName, e, c1 == NULL, 1, c1 == NULL, sp_w);
   if (c1) FreeCompoundDataNIST(c1); if (c2) FreeCompoundDataNIST(c2);
   sp_leak("GetCompoundDataNISTByName", b0, redo_nistn, (void *)s); }
 
@@ -78,7 +78,7 @@ static void cb_nisti(const int *idx, void *u) { int i = idx[0] < 200 ? idx[0] - 
   SP_LAST("GetCompoundDataNISTByIndex(%d)", i); b0 = sw_alloc();
   c1 = GetCompoundDataNISTByIndex(i, &e); c2 = GetCompoundDataNISTByIndex(i, NULL);
   if (dg_nist(c1) != dg_nist(c2)) sw_violation("GetCompoundDataNISTByIndex", "slot-dependent-result", "", sp_w);
-  sw_contract(F_NISTByIndex, e, c1 == NULL, 1, 0, sp_w);
+  sw_contract(F_NISTByIndex, e, c1 == NULL, 1, c1 == NULL, sp_w);
   if (c1) FreeCompoundDataNIST(c1); if (c2) FreeCompoundDataNIST(c2);
   sp_leak("GetCompoundDataNISTByIndex", b0, redo_nisti, &i); }
 
@@ -87,7 +87,7 @@ static void cb_rnn(const int *idx, void *u) { const char *s = sp_pool[idx[0]]; x
   SP_LAST("GetRadioNuclideDataByName(%s)", sp_q(s)); b0 = sw_alloc();
   c1 = GetRadioNuclideDataByName(s, &e); c2 = GetRadioNuclideDataByName(s, NULL);
   if (dg_rn(c1) != dg_rn(c2)) sw_violation("GetRadioNuclideDataByName", "slot-dependent-result", "", sp_w);
-  sw_contract(F_RNByName, e, c1 == NULL, 1, 0, sp_w);
+  sw_contract(F_RNByName, e, c1 == NULL, 1, c1 == NULL, sp_w);
   if (c1) FreeRadioNuclideData(c1); if (c2) FreeRadioNuclideData(c2);
   sp_leak("GetRadioNuclideDataByName", b0, redo_rnn, (void *)s); }
 
@@ -96,7 +96,7 @@ static void cb_rni(const int *idx, void *u) { int i = idx[0] < 30 ? idx[0] - 5 :
   SP_LAST("GetRadioNuclideDataByIndex(%d)", i); b0 = sw_alloc();
   c1 = GetRadioNuclideDataByIndex(i, &e); c2 = GetRadioNuclideDataByIndex(i, NULL);
   if (dg_rn(c1) != dg_rn(c2)) sw_violation("GetRadioNuclideDataByIndex", "slot-dependent-result", "", sp_w);
-  sw_contract(F_RNByIndex, e, c1 == NULL, 1, 0, sp_w);
+  sw_contract(F_RNByIndex, e, c1 == NULL, 1, c1 == NULL, sp_w);
   if (c1) FreeRadioNuclideData(c1); if (c2) FreeRadioNuclideData(c2);
   sp_leak("GetRadioNuclideDataByIndex", b0, redo_rni, &i); }
 
@@ -104,13 +104,13 @@ static void redo_lists(void *u) { int n; (void)u; free_list(GetCompoundDataNISTL
 static void do_lists(void) { xrl_error *e = NULL; int n1 = -1, n2 = -1; char **l1, **l2; size_t b0 = sw_alloc();
   SP_LAST("GetCompoundDataNISTList()"); l1 = GetCompoundDataNISTList(&n1, &e); l2 = GetCompoundDataNISTList(NULL, NULL);
   if (dg_list(l1, 100000) != dg_list(l2, 100000)) sw_violation("GetCompoundDataNISTList", "slot-dependent-result", "", sp_w);
-  sw_contract(F_NISTList, e, l1 == NULL, 1, l1 && n1 <= 0, sp_w); free_list(l1); free_list(l2);
+  sw_contract(F_NISTList, e, l1 == NULL, 1, l1 == NULL || n1 <= 0, sp_w); free_list(l1); free_list(l2);
   e = NULL; SP_LAST("GetRadioNuclideDataList()"); l1 = GetRadioNuclideDataList(&n1, &e); l2 = GetRadioNuclideDataList(&n2, NULL);
   if (dg_list(l1, 100000) != dg_list(l2, 100000) || n1 != n2) sw_violation("GetRadioNuclideDataList", "slot-dependent-result", "", sp_w);
-  sw_contract(F_RNList, e, l1 == NULL, 1, l1 && n1 <= 0, sp_w); free_list(l1); free_list(l2);
+  sw_contract(F_RNList, e, l1 == NULL, 1, l1 == NULL || n1 <= 0, sp_w); free_list(l1); free_list(l2);
   e = NULL; SP_LAST("Crystal_GetCrystalsList(NULL)"); l1 = Crystal_GetCrystalsList(NULL, &n1, &e); l2 = Crystal_GetCrystalsList(NULL, NULL, NULL);
   if (dg_list(l1, 100000) != dg_list(l2, 100000)) sw_violation("Crystal_GetCrystalsList", "slot-dependent-result", "", sp_w);
-  sw_contract(F_CrList, e, l1 == NULL, 1, l1 && n1 <= 0, sp_w); free_list(l1); free_list(l2);
+  sw_contract(F_CrList, e, l1 == NULL, 1, l1 == NULL || n1 <= 0, sp_w); free_list(l1); free_list(l2);
   sp_leak("lists", b0, redo_lists, NULL); }
 
 static void redo_a2s(void *u) { xrl_error *e = NULL; char *s = AtomicNumberToSymbol(*(int *)u, &e); if (s) xrlFree(s); if (e) xrl_error_free(e); }
@@ -118,7 +118,7 @@ static void cb_a2s(const int *idx, void *u) { int Z = sw_Zs[idx[0]]; xrl_error *
   SP_LAST("AtomicNumberToSymbol(%d)", Z); b0 = sw_alloc();
   s1 = AtomicNumberToSymbol(Z, &e); s2 = AtomicNumberToSymbol(Z, NULL);
   if ((s1 == NULL) != (s2 == NULL) || (s1 && strcmp(s1, s2))) sw_violation("AtomicNumberToSymbol", "slot-dependent-result", "", sp_w);
-  sw_contract(F_A2S, e, s1 == NULL, 1, s1 && !s1[0], sp_w);
+  sw_contract(F_A2S, e, s1 == NULL, 1, s1 == NULL || !s1[0], sp_w);
   if (s1) xrlFree(s1); if (s2) xrlFree(s2);
   sp_leak("AtomicNumberToSymbol", b0, redo_a2s, &Z); }
 
@@ -145,16 +145,16 @@ static void cb_getcr(const int *idx, void *u) { const char *s = sp_pool[idx[0]];
   SP_LAST("Crystal_GetCrystal(%s,NULL)", sp_q(s)); b0 = sw_alloc();
   c1 = Crystal_GetCrystal(s, NULL, &e); c2 = Crystal_GetCrystal(s, NULL, NULL);
   if (dg_cr(c1) != dg_cr(c2)) sw_violation("Crystal_GetCrystal", "slot-dependent-result", "", sp_w);
-  sw_contract(F_GetCrystal, e, c1 == NULL, 1, 0, sp_w);
+  sw_contract(F_GetCrystal, e, c1 == NULL, 1, c1 == NULL, sp_w);
   if (c1) { e = NULL; SP_LAST("Crystal_MakeCopy(<%s>)", c1->name); c3 = Crystal_MakeCopy(c1, &e); if (dg_cr(c3) != dg_cr(c1)) sw_violation("Crystal_MakeCopy", "copy-differs", "", sp_w);
-    sw_contract(F_MakeCopy, e, c3 == NULL, 1, 0, sp_w); }
+    sw_contract(F_MakeCopy, e, c3 == NULL, 1, c3 == NULL, sp_w); }
   if (c1) Crystal_Free(c1); if (c2) Crystal_Free(c2); if (c3) Crystal_Free(c3);
   sp_leak("Crystal_GetCrystal", b0, redo_getcr, (void *)s); }
 
 static void do_misc_crystal(void) { xrl_error *e = NULL; Crystal_Struct *c; Crystal_Array *a; int k;
   /* capacities: invalid, tiny, and large ones whose byte size leaves 32 bits (1<<28 * sizeof(Crystal_Struct) etc.): refused cleanly or really that large */
   static const int ns[] = { -5, -1, 0, 1, 7, INT_MIN, 1 << 28, 53687092, 161061274, 1 << 29 };
-  SP_LAST("Crystal_MakeCopy(NULL)"); c = Crystal_MakeCopy(NULL, &e); Crystal_MakeCopy(NULL, NULL); sw_contract(F_MakeCopy, e, c == NULL, 1, 0, sp_w);
+  SP_LAST("Crystal_MakeCopy(NULL)"); c = Crystal_MakeCopy(NULL, &e); Crystal_MakeCopy(NULL, NULL); sw_contract(F_MakeCopy, e, c == NULL, 1, c == NULL, sp_w);
   /* a caller-described crystal (stored volume left 0) added so that it sorts BEFORE an existing entry, then used */
   e = NULL; SP_LAST("ArrayInit(2); AddCrystal(<Si as 'Zzz'>); AddCrystal(<from scratch 'Aaa', volume 0>); GetCrystal('Aaa'); Crystal_dSpacing");
   a = Crystal_ArrayInit(2, NULL); c = Crystal_GetCrystal("Si", NULL, NULL);
@@ -162,8 +162,8 @@ static void do_misc_crystal(void) { xrl_error *e = NULL; Crystal_Struct *c; Crys
     free(c->name); c->name = strdup("Zzz"); r1 = Crystal_AddCrystal(c, a, NULL);
     memset(&u, 0, sizeof u); u.name = (char *)"Aaa"; u.a = 4.0; u.b = 5.0; u.c = 6.0; u.alpha = 80; u.beta = 95; u.gamma = 100; u.volume = 0.0; u.n_atom = 2; u.atom = at;
     at[0].Zatom = 14; at[0].fraction = 1; at[0].x = at[0].y = at[0].z = 0; at[1] = at[0]; at[1].Zatom = 8; at[1].x = 0.5;
-    r2 = Crystal_AddCrystal(&u, a, &e); sw_contract(F_AddCr, e, r2 == 0, 1, 0, sp_w);
-    e = NULL; g = Crystal_GetCrystal("Aaa", a, &e); sw_contract(F_GetCrystal, e, g == NULL, 1, 0, sp_w);
+    r2 = Crystal_AddCrystal(&u, a, &e); sw_contract(F_AddCr, e, r2 == 0, 1, r2 == 0, sp_w);
+    e = NULL; g = Crystal_GetCrystal("Aaa", a, &e); sw_contract(F_GetCrystal, e, g == NULL, 1, g == NULL, sp_w);
     if (g) { e = NULL; v = Crystal_dSpacing(g, 1, 1, 1, &e); sw_contract(F_dSp, e, v == 0.0, isfinite(v), v == 0.0, sp_w);
       e = NULL; v = Bragg_angle(g, 12.0, 1, 1, 1, &e); sw_contract(F_Bragg, e, v == 0.0, isfinite(v), v == 0.0, sp_w); Crystal_Free(g); }
     (void)r1; }
@@ -186,37 +186,37 @@ static void do_misc_crystal(void) { xrl_error *e = NULL; Crystal_Struct *c; Crys
       strcpy(path, "/tmp/xv-sweep-cr-XXXXXX"); fd = mkstemp(path); if (fd < 0) break;
       if (write(fd, files[j], strlen(files[j])) < 0) {} close(fd);
       a = Crystal_ArrayInit(1, NULL);
-      if (a) { e = NULL; SP_LAST("Crystal_ReadFile(<generated file %d>, <user array>)", (int)j); r = Crystal_ReadFile(path, a, &e); sw_contract(F_ReadFile, e, r == 0, 1, 0, sp_w);
+      if (a) { e = NULL; SP_LAST("Crystal_ReadFile(<generated file %d>, <user array>)", (int)j); r = Crystal_ReadFile(path, a, &e); sw_contract(F_ReadFile, e, r == 0, 1, r == 0, sp_w);
         if (j > 0 && r) sw_violation("Crystal_ReadFile", "wrong-answer", "a malformed file was accepted", sp_w);
         r = Crystal_ReadFile(path, a, NULL); Crystal_ArrayFree(a); }
       /* the same content through something that is NOT a regular file: a pipe (as /proc/self/fd/N; what <(...) or /dev/stdin give a program), which
        * cannot be repositioned - whatever the library makes of it, the outcome is a success or a failure WITH an error */
       { int pp[2]; if (pipe(pp) == 0) { char ppath[64]; if (write(pp[1], files[j], strlen(files[j])) < 0) {} close(pp[1]); snprintf(ppath, sizeof ppath, "/proc/self/fd/%d", pp[0]);
           a = Crystal_ArrayInit(1, NULL);
-          if (a) { e = NULL; SP_LAST("Crystal_ReadFile(<generated file %d through a pipe>, <user array>)", (int)j); r = Crystal_ReadFile(ppath, a, &e); sw_contract(F_ReadFile, e, r == 0, 1, 0, sp_w);
+          if (a) { e = NULL; SP_LAST("Crystal_ReadFile(<generated file %d through a pipe>, <user array>)", (int)j); r = Crystal_ReadFile(ppath, a, &e); sw_contract(F_ReadFile, e, r == 0, 1, r == 0, sp_w);
             if (j > 0 && r) sw_violation("Crystal_ReadFile", "wrong-answer", "a malformed file was accepted (pipe)", sp_w); Crystal_ArrayFree(a); }
           close(pp[0]); } }
-      if (j == 0) { a = Crystal_ArrayInit(1, NULL); if (a) { e = NULL; SP_LAST("Crystal_ReadFile('/dev/null', <user array>)"); r = Crystal_ReadFile("/dev/null", a, &e); sw_contract(F_ReadFile, e, r == 0, 1, 0, sp_w);
-          e = NULL; SP_LAST("Crystal_ReadFile(<a directory>, <user array>)"); r = Crystal_ReadFile("/tmp", a, &e); sw_contract(F_ReadFile, e, r == 0, 1, 0, sp_w); Crystal_ArrayFree(a); } }
-      if (j == 10) { e = NULL; SP_LAST("Crystal_ReadFile(<generated file %d>, <built-in array>)", (int)j); r = Crystal_ReadFile(path, NULL, &e); sw_contract(F_ReadFile, e, r == 0, 1, 0, sp_w); }
+      if (j == 0) { a = Crystal_ArrayInit(1, NULL); if (a) { e = NULL; SP_LAST("Crystal_ReadFile('/dev/null', <user array>)"); r = Crystal_ReadFile("/dev/null", a, &e); sw_contract(F_ReadFile, e, r == 0, 1, r == 0, sp_w);
+          e = NULL; SP_LAST("Crystal_ReadFile(<a directory>, <user array>)"); r = Crystal_ReadFile("/tmp", a, &e); sw_contract(F_ReadFile, e, r == 0, 1, r == 0, sp_w); Crystal_ArrayFree(a); } }
+      if (j == 10) { e = NULL; SP_LAST("Crystal_ReadFile(<generated file %d>, <built-in array>)", (int)j); r = Crystal_ReadFile(path, NULL, &e); sw_contract(F_ReadFile, e, r == 0, 1, r == 0, sp_w); }
       unlink(path); } }
   e = NULL;
-  for (k = 0; k < (int)(sizeof ns / sizeof ns[0]); k++) { e = NULL; SP_LAST("Crystal_ArrayInit(%d)", ns[k]); a = Crystal_ArrayInit(ns[k], &e); sw_contract(F_ArrayInit, e, a == NULL, 1, 0, sp_w);
-    if (a) { int n = -1; char **l; e = NULL; SP_LAST("Crystal_GetCrystalsList(<empty array>)"); l = Crystal_GetCrystalsList(a, &n, &e); sw_contract(F_CrList, e, l == NULL, 1, 0, sp_w); if (n != 0) sw_violation("Crystal_GetCrystalsList", "wrong-count", "", sp_w); free_list(l);
-      e = NULL; SP_LAST("Crystal_AddCrystal(NULL,<array>)"); { int r = Crystal_AddCrystal(NULL, a, &e); Crystal_AddCrystal(NULL, a, NULL); sw_contract(F_AddCr, e, r == 0, 1, 0, sp_w); }
-      e = NULL; SP_LAST("Crystal_ReadFile(NULL,<array>)"); { int r = Crystal_ReadFile(NULL, a, &e); Crystal_ReadFile(NULL, a, NULL); sw_contract(F_ReadFile, e, r == 0, 1, 0, sp_w); }
-      e = NULL; SP_LAST("Crystal_ReadFile('/nonexistent/xv',<array>)"); { int r = Crystal_ReadFile("/nonexistent/xv", a, &e); Crystal_ReadFile("/nonexistent/xv", a, NULL); sw_contract(F_ReadFile, e, r == 0, 1, 0, sp_w); }
-      e = NULL; SP_LAST("Crystal_GetCrystal('Si',<empty array>)"); c = Crystal_GetCrystal("Si", a, &e); sw_contract(F_GetCrystal, e, c == NULL, 1, 0, sp_w); if (c) Crystal_Free(c);
+  for (k = 0; k < (int)(sizeof ns / sizeof ns[0]); k++) { e = NULL; SP_LAST("Crystal_ArrayInit(%d)", ns[k]); a = Crystal_ArrayInit(ns[k], &e); sw_contract(F_ArrayInit, e, a == NULL, 1, a == NULL, sp_w);
+    if (a) { int n = -1; char **l; e = NULL; SP_LAST("Crystal_GetCrystalsList(<empty array>)"); l = Crystal_GetCrystalsList(a, &n, &e); sw_contract(F_CrList, e, l == NULL, 1, l == NULL, sp_w); if (n != 0) sw_violation("Crystal_GetCrystalsList", "wrong-count", "", sp_w); free_list(l);
+      e = NULL; SP_LAST("Crystal_AddCrystal(NULL,<array>)"); { int r = Crystal_AddCrystal(NULL, a, &e); Crystal_AddCrystal(NULL, a, NULL); sw_contract(F_AddCr, e, r == 0, 1, r == 0, sp_w); }
+      e = NULL; SP_LAST("Crystal_ReadFile(NULL,<array>)"); { int r = Crystal_ReadFile(NULL, a, &e); Crystal_ReadFile(NULL, a, NULL); sw_contract(F_ReadFile, e, r == 0, 1, r == 0, sp_w); }
+      e = NULL; SP_LAST("Crystal_ReadFile('/nonexistent/xv',<array>)"); { int r = Crystal_ReadFile("/nonexistent/xv", a, &e); Crystal_ReadFile("/nonexistent/xv", a, NULL); sw_contract(F_ReadFile, e, r == 0, 1, r == 0, sp_w); }
+      e = NULL; SP_LAST("Crystal_GetCrystal('Si',<empty array>)"); c = Crystal_GetCrystal("Si", a, &e); sw_contract(F_GetCrystal, e, c == NULL, 1, c == NULL, sp_w); if (c) Crystal_Free(c);
       /* the array announces room for ns[k] crystals: store two and read them back */
       { Crystal_Struct *s1 = Crystal_GetCrystal("Si", NULL, NULL), *s2 = Crystal_GetCrystal("Ge", NULL, NULL), *g; int r;
         if (s1 && s2) { e = NULL; SP_LAST("Crystal_ArrayInit(%d) then AddCrystal(Si), AddCrystal(Ge), GetCrystal", ns[k]);
-          r = Crystal_AddCrystal(s1, a, &e); sw_contract(F_AddCr, e, r == 0, 1, 0, sp_w); e = NULL; r = Crystal_AddCrystal(s2, a, &e); sw_contract(F_AddCr, e, r == 0, 1, 0, sp_w);
-          e = NULL; g = Crystal_GetCrystal("Ge", a, &e); sw_contract(F_GetCrystal, e, g == NULL, 1, 0, sp_w); if (g) { if (g->n_atom != s2->n_atom) sw_violation("Crystal_GetCrystal", "wrong-answer", "", sp_w); Crystal_Free(g); } }
+          r = Crystal_AddCrystal(s1, a, &e); sw_contract(F_AddCr, e, r == 0, 1, r == 0, sp_w); e = NULL; r = Crystal_AddCrystal(s2, a, &e); sw_contract(F_AddCr, e, r == 0, 1, r == 0, sp_w);
+          e = NULL; g = Crystal_GetCrystal("Ge", a, &e); sw_contract(F_GetCrystal, e, g == NULL, 1, g == NULL, sp_w); if (g) { if (g->n_atom != s2->n_atom) sw_violation("Crystal_GetCrystal", "wrong-answer", "", sp_w); Crystal_Free(g); } }
         if (s1) Crystal_Free(s1); if (s2) Crystal_Free(s2); }
       Crystal_ArrayFree(a); }
     a = Crystal_ArrayInit(ns[k], NULL); if (a) Crystal_ArrayFree(a); }
   e = NULL; SP_LAST("Crystal_AddCrystal(<Si copy>,NULL) duplicate"); c = Crystal_GetCrystal("Si", NULL, NULL);
-  if (c) { int r = Crystal_AddCrystal(c, NULL, &e); sw_contract(F_AddCr, e, r == 0, 1, 0, sp_w); if (r) sw_violation("Crystal_AddCrystal", "duplicate-accepted", "", sp_w); Crystal_Free(c); }
+  if (c) { int r = Crystal_AddCrystal(c, NULL, &e); sw_contract(F_AddCr, e, r == 0, 1, r == 0, sp_w); if (r) sw_violation("Crystal_AddCrystal", "duplicate-accepted", "", sp_w); Crystal_Free(c); }
   Crystal_ArrayFree(NULL); Crystal_Free(NULL); }
 /* run a sequence once to warm the monitor's own tables, then three times under the allocation balance */
 static void sp_leak_seq(const char *name, void (*seq)(void), const char *what) { int rep, grew = 0; seq();
